@@ -116,7 +116,7 @@ class StlAstParserVisitor(LtlAstParserVisitor, StlParserVisitor):
 
         val = self.const_val_dict[const_name]
 
-        out = Fraction(Decimal(val))
+        out = self.time_bound(val)
 
         if ctx.unit() is None:
             unit = ''
@@ -126,13 +126,24 @@ class StlAstParserVisitor(LtlAstParserVisitor, StlParserVisitor):
         return out, unit
 
 
+    def time_bound(self, text):
+        # the exact value of a bound; a bound that is not a finite number, or whose magnitude is beyond
+        # anything a time stamp can hold, is not a time bound (and 10**exponent is never materialised)
+        try:
+            d = Decimal(text)
+        except ArithmeticError:
+            try:
+                # hexadecimal or binary integer literal
+                d = Decimal(int(text, 0))
+            except ValueError:
+                raise RTAMTException('The bound {} is not a number'.format(text[:40]))
+        if not d.is_finite() or abs(d.adjusted()) > 1000 or len(d.as_tuple().digits) > 1000:
+            raise RTAMTException('The bound {} is not a time bound'.format(text[:40]))
+        return Fraction(d)
+
     def visitIntervalTimeLiteral(self, ctx):
         text = ctx.literal().getText().replace('_', '')
-        try:
-            time_bound = Fraction(Decimal(text))
-        except ArithmeticError:
-            # hexadecimal or binary integer literal
-            time_bound = Fraction(int(text, 0))
+        time_bound = self.time_bound(text)
         if ctx.unit() is None:
             unit = ''
         else:
